@@ -4,6 +4,7 @@ import IrefVerif.Props.C11
 import IrefVerif.Lemmas.SetterValid
 import IrefVerif.Lemmas.IriBytes
 import IrefVerif.Props.Valid
+import IrefVerif.Lemmas.PathHandleValid
 
 /-!
 # C04 — safe mutation never breaks well-formedness
@@ -23,10 +24,17 @@ list from `setter_step`, which combines `C05.model_set_*` (the model computes th
 recomposition) with `Lemmas/SetterValid.lean` (the specified component list is valid: the
 shields `./`, `/`, `/.` always move the path into a production the new context allows).
 `uriRefBuf_setters`, `iriRefBuf_setters`: end to end from the generated automata.
-For the path handle (push/pop/clear/symbolic/normalize), the authority handle and resolution
-the invariant is checked on the implementation after *every* step of every generated history
-by the `history` oracle (re-parse with the specification matcher, UTF-8 check, no panic), and
-the model is compared with the implementation after every step.
+Path handle (`path_session`): for every valid reference and **every finite sequence** of `push`,
+`pop`, `clear`, `symbolic_push`, `symbolic_append`, `normalize` with valid arguments the model of
+`path_mut.rs` does not panic and leaves a valid reference whose other components are untouched
+(`Lemmas/GoodPath.lean`: a path is valid in its context iff every `/`-separated piece is a
+`segment` and three context rules hold; `Lemmas/GoodOps.lean`: each operation preserves that,
+through every shield it writes; `Lemmas/PathHandleValid.lean`).
+All three together (`edit_history`): any interleaving of setter calls, sessions on the path
+handle and sessions on the authority handle keeps the buffer a valid reference.
+For in-place resolution the invariant is checked on the implementation after *every* step of
+every generated history by the `history` oracle (re-parse with the specification matcher, UTF-8
+check, no panic), and the model is compared with the implementation after every step.
 -/
 
 namespace IrefVerif.Props.C04
@@ -233,6 +241,114 @@ theorem iriRefBuf_setters (ops : List SetOp) (w : Text) (hb : ∀ c ∈ w, c < 2
     (h : accepts .iriRef w = true) (hops : ∀ op ∈ ops, op.Valid iriGB) :
     ∃ w', runOps w ops = some w' ∧ RE.Matches iriGB.reference w' :=
   setter_history iriGB iriGB_ok iriGB_okPath ops w (Valid.iriRef_octets w hb h) hops
+
+/-! ## the path handle, and every interleaving of the three ways to edit -/
+
+open IrefVerif.Props.C10 in
+/-- **a session on the path handle** keeps the reference valid, never panics, and changes nothing
+but the path -/
+theorem path_session (G : Grammar) (ok : Grammar.Ok G) (okp : Grammar.OkPath G) (w : Text)
+    (h : RE.Matches G.reference w) (ops : List C10.PathOp) (hops : ∀ op ∈ ops, Lemmas.PathOp.Valid G op) :
+    ∃ h', C10.pathRun (Model.Ref.path_mut w) ops = some h' ∧ RE.Matches G.reference h'.buffer ∧
+      split h'.buffer = { split w with path := h'.view } :=
+  Lemmas.path_session_valid G ok okp w h ops hops
+
+/-- a session on the authority handle keeps the reference valid -/
+theorem authority_session (G : Grammar) (ok : Grammar.Ok G) (okp : Grammar.OkPath G) (oka : Grammar.OkAuth G)
+    (w a : Text) (h : RE.Matches G.reference w) (ha : (split w).authority = some a) (ops : List C11.AmOp)
+    (hops : ∀ op ∈ ops, op.Valid G) :
+    ∃ hd hd', Model.Ref.authority_mut w = some hd ∧ C11.amRun hd ops = some hd' ∧
+      RE.Matches G.reference hd'.data := by
+  obtain ⟨hd, hd', e0, e1, hdata, _, hauth⟩ := C11.handle_in_reference G ok oka w a h ha ops hops
+  refine ⟨hd, hd', e0, e1, ?_⟩
+  obtain ⟨hv, _⟩ := split_valid G ok w h
+  have hv' := valid_set_authority_some G ok okp (split w) hv _ hauth
+  have hpw : Lemmas.pathWithAuth (split w) = (split w).path := by simp [Lemmas.pathWithAuth, ha]
+  rw [hpw] at hv'
+  rw [hdata]
+  exact assemble G _ hv'
+
+/-- one way of editing a buffer: a setter call, a session on `path_mut()`, a session on
+`authority_mut()` (which returns `None`, so nothing happens, when there is no authority) -/
+inductive Edit
+  | set (op : SetOp)
+  | path (ops : List C10.PathOp)
+  | auth (ops : List C11.AmOp)
+
+def Edit.Valid (G : Grammar) : Edit → Prop
+  | .set op => op.Valid G
+  | .path ops => ∀ op ∈ ops, Lemmas.PathOp.Valid G op
+  | .auth ops => ∀ op ∈ ops, op.Valid G
+
+def editStep (w : Text) : Edit → Option Text
+  | .set op => setStep w op
+  | .path ops => (C10.pathRun (Model.Ref.path_mut w) ops).map (·.buffer)
+  | .auth ops =>
+    match Model.Ref.authority_mut w with
+    | some hd => (C11.amRun hd ops).map (·.data)
+    | none => some w
+
+def runEdits : Text → List Edit → Option Text
+  | w, [] => some w
+  | w, e :: es => match editStep w e with
+    | some w' => runEdits w' es
+    | none => none
+
+theorem edit_step (G : Grammar) (ok : Grammar.Ok G) (okp : Grammar.OkPath G) (oka : Grammar.OkAuth G) (w : Text)
+    (h : RE.Matches G.reference w) (e : Edit) (he : e.Valid G) :
+    ∃ w', editStep w e = some w' ∧ RE.Matches G.reference w' := by
+  cases e with
+  | set op => exact setter_step G ok okp w h op he
+  | path ops =>
+    obtain ⟨h', e1, hv, _⟩ := path_session G ok okp w h ops he
+    exact ⟨h'.buffer, by simp [editStep, e1], hv⟩
+  | auth ops =>
+    cases ha : (split w).authority with
+    | some a =>
+      obtain ⟨hd, hd', e0, e1, hv⟩ := authority_session G ok okp oka w a h ha ops he
+      exact ⟨hd'.data, by simp [editStep, e0, e1], hv⟩
+    | none =>
+      obtain ⟨_, wf⟩ := split_valid G ok w h
+      have hnone : Model.Ref.authority_mut w = none := by
+        have := Lemmas.ref_authority_recompose (split w) wf
+        rw [Lemmas.recompose_split, ha] at this
+        unfold Model.Ref.authority at this
+        unfold Model.Ref.authority_mut
+        cases hf : (Model.Parse.find_authority w 0).toOption with
+        | none => rfl
+        | some r => rw [hf] at this; simp at this
+      exact ⟨w, by simp [editStep, hnone], h⟩
+
+/-- **every interleaving of setter calls, path-handle sessions and authority-handle sessions**
+started from any valid reference: no panic, and a valid reference at the end -/
+theorem edit_history (G : Grammar) (ok : Grammar.Ok G) (okp : Grammar.OkPath G) (oka : Grammar.OkAuth G)
+    (es : List Edit) (w : Text) (h : RE.Matches G.reference w) (hes : ∀ e ∈ es, e.Valid G) :
+    ∃ w', runEdits w es = some w' ∧ RE.Matches G.reference w' := by
+  induction es generalizing w with
+  | nil => exact ⟨w, rfl, h⟩
+  | cons e es ih =>
+    obtain ⟨w1, h1, hv1⟩ := edit_step G ok okp oka w h e (hes e List.mem_cons_self)
+    obtain ⟨w2, h2, hv2⟩ := ih w1 hv1 (fun o ho => hes o (List.mem_cons_of_mem _ ho))
+    exact ⟨w2, by simp only [runEdits, h1, h2], hv2⟩
+
+/-- end to end: any `UriRefBuf` the constructor accepts -/
+theorem uriRefBuf_edits (es : List Edit) (w : Text) (hb : ∀ c ∈ w, c < 256)
+    (h : accepts .uriRef w = true) (hes : ∀ e ∈ es, e.Valid uriG) :
+    ∃ w', runEdits w es = some w' ∧ RE.Matches uriG.reference w' :=
+  edit_history uriG uriG_ok uriG_okPath uriG_okAuth es w (Valid.uriRef_octets w hb h) hes
+
+/-- … any `IriRefBuf` (octets; arguments valid at octet level, so the result is well-formed
+UTF-8 too) -/
+theorem iriRefBuf_edits (es : List Edit) (w : Text) (hb : ∀ c ∈ w, c < 256)
+    (h : accepts .iriRef w = true) (hes : ∀ e ∈ es, e.Valid iriGB) :
+    ∃ w', runEdits w es = some w' ∧ RE.Matches iriGB.reference w' :=
+  edit_history iriGB iriGB_ok iriGB_okPath iriGB_okAuth es w (Valid.iriRef_octets w hb h) hes
+
+/-- non-vacuity: setters and both handles in one history, run by the model -/
+example : runEdits [0x73, 0x3A, 0x2F, 0x2F, 0x68, 0x2F, 0x61]
+    [.path [.push [], .pop, .pop, .push [0x62]], .auth [.port (some [0x38])], .set (.authority none),
+     .path [.spush [0x2E, 0x2E], .push [], .push [0x63], .norm]]
+    = some [0x73, 0x3A, 0x2F, 0x2E, 0x2F, 0x2F, 0x63] := by decide
 
 /-- non-vacuity: a history that needs all three shields, run by the model -/
 example : runOps [0x73, 0x3A, 0x61, 0x3A, 0x62]
